@@ -307,6 +307,7 @@ def main():
     import c15_streams as S
     S.torch_functions(run, drv, ["D1", "S1"] if run.tier == "quick" else ["D1", "S1", "Fz", "Ac", "Nc", "Sh", "D2"])
     S.typed_fields(run, drv)
+    S.items_stream(run, drv)
     S.containers(run)
     S.option_probes(run, kinds)
     debug_dump(run)
